@@ -21,18 +21,23 @@ func ruleU11(p *Prog) *RuleResult {
 		bt, ok := t.Underlying().(*types.Basic)
 		return ok && bt.Info()&types.IsUnsigned != 0 && p.sizeofBasic(bt) >= 4
 	}
-	for _, f := range fns {
-		if f.Blocks == nil || f.Parent() != nil {
-			continue
+	type fnAn struct {
+		carries  func(v ssa.Value, seen map[ssa.Value]bool) bool
+		positive func(v ssa.Value, at *ssa.BasicBlock, edge bool, seen map[ssa.Value]bool) (bool, string)
+		params   map[ssa.Value]bool
+	}
+	cache := map[*ssa.Function]*fnAn{}
+	var analysisOf func(f *ssa.Function) *fnAn
+	analysisOf = func(f *ssa.Function) *fnAn {
+		if a, ok := cache[f]; ok {
+			return a
 		}
+		cache[f] = nil
 		params := map[ssa.Value]bool{}
 		for _, prm := range f.Params {
 			if isUnsigned(prm.Type()) {
 				params[prm] = true
 			}
-		}
-		if len(params) == 0 {
-			continue
 		}
 		// values that carry a parameter: the parameter, or a phi merging it with clamps
 		var carries func(v ssa.Value, seen map[ssa.Value]bool) bool
@@ -114,6 +119,70 @@ func ruleU11(p *Prog) *RuleResult {
 			}
 			return false, ""
 		}
+		a := &fnAn{carries: carries, positive: positive, params: params}
+		cache[f] = a
+		return a
+	}
+	// for an unexported helper the parameter is the caller's business: positive at every static call site whose
+	// argument itself carries a parameter (up to the exported entry points)
+	var positiveAtCallers func(g *ssa.Function, q ssa.Value, depth int) (bool, string)
+	positiveAtCallers = func(g *ssa.Function, q ssa.Value, depth int) (bool, string) {
+		if token.IsExported(g.Name()) || depth > 2 {
+			return false, ""
+		}
+		qi := -1
+		for i, prm := range g.Params {
+			if ssa.Value(prm) == q {
+				qi = i
+			}
+		}
+		if qi < 0 {
+			return false, ""
+		}
+		sites := 0
+		for _, h := range fns {
+			for _, b := range h.Blocks {
+				for _, ins := range b.Instrs {
+					ci, ok := ins.(ssa.CallInstruction)
+					if !ok || ci.Common().StaticCallee() != g || qi >= len(ci.Common().Args) {
+						continue
+					}
+					sites++
+					arg := ci.Common().Args[qi]
+					ha := analysisOf(h)
+					if ha == nil {
+						return false, ""
+					}
+					if !ha.carries(arg, map[ssa.Value]bool{}) {
+						continue // not a caller-supplied quantity on this way in
+					}
+					if ok, _ := ha.positive(arg, b, false, map[ssa.Value]bool{}); ok {
+						continue
+					}
+					// the caller's own parameter, handed on: look one level further up
+					if ha.params[arg] {
+						if ok, _ := positiveAtCallers(h, arg, depth+1); ok {
+							continue
+						}
+					}
+					return false, ""
+				}
+			}
+		}
+		if sites == 0 {
+			return false, ""
+		}
+		return true, fmt.Sprintf("positive (or not caller-supplied) at each of the %d call sites of this helper", sites)
+	}
+	for _, f := range fns {
+		if f.Blocks == nil || f.Parent() != nil {
+			continue
+		}
+		an := analysisOf(f)
+		if an == nil || len(an.params) == 0 {
+			continue
+		}
+		carries, positive := an.carries, an.positive
 		n := 0
 		for _, b := range f.Blocks {
 			for _, ins := range b.Instrs {
@@ -134,6 +203,8 @@ func ruleU11(p *Prog) *RuleResult {
 				cn := fmt.Sprintf("%s|%s#%d", fname(f), p.exprShape(bo.Pos()), n)
 				if ok, why := positive(bo.X, b, false, map[ssa.Value]bool{}); ok {
 					res.ok(cn, p.ipos(bo), "the operand is positive here: "+why)
+				} else if ok, why := positiveAtCallers(f, bo.X, 0); ok {
+					res.ok(cn, p.ipos(bo), why)
 				} else {
 					res.bad(cn, p.ipos(bo), "the unsigned operand comes from the caller and nothing on the way here excludes zero: end-1 wraps to the top of the universe")
 				}
